@@ -36,7 +36,8 @@ TIMEOUT = {"quick": 900, "thorough": 3600}
 SCTP_CLONES = {"quick": ['matrix11', 'stall5', 'churn3'], "thorough": ['matrix12', 'matrix13', 'stall14', 'stall15', 'churn6', 'churn7']}
 
 SCENARIOS = ["in_handshake", "out_handshake", "request", "dwr_from_peer", "dwr_from_node", "dpr"]
-RACE_SCENARIOS = ["out_rejected_and_closed", "cer_at_timeout", "equal_ids_two_connections", "unknown_peer_then_close"]
+RACE_SCENARIOS = ["out_rejected_and_closed", "cer_at_timeout", "equal_ids_two_connections", "unknown_peer_then_close",
+                  "start_dials_many"]
 FAULTS = ["close", "reset", "read_error", "write_error", "soft_errors", "garbage", "connect_refused",
           "connect_failed"]
 HANDLERS = ["answer", "none", "raise", "slow"]
@@ -69,6 +70,10 @@ class Case:
         out = scenario in ("out_handshake", "out_rejected_and_closed")
         peers = [{"name": VICTIM, "persistent": out, "reconnect_wait": 1, "timers": {"idle_timeout": 10}},
                  {"name": PROBE}, {"name": "victim2.verif.example"}]
+        if scenario == "start_dials_many":
+            # Node.start() dials these one after the other while the I/O thread is already looping
+            peers += [{"name": f"dial{i}.verif.example", "ip": f"10.1.1.{i}", "persistent": True,
+                       "reconnect_wait": 10 ** 6} for i in range(1, 6)]
         self.staller = None
         self.beh = {"v": handler}
         app = {"tag": "a4", "id": 4, "kind": kind, "peers": [VICTIM, PROBE, "victim2.verif.example"], "max_threads": limit,
@@ -277,6 +282,11 @@ class Case:
 
     def start_once(self):
         if not self.started:
+            early = self.spec["scenario"] == "start_dials_many"
+            if early and self.spec.get("stall_seed") is not None:
+                from vf.simnet.stall import Staller
+                self.staller = Staller(self.h, self.spec["stall_seed"], q=0.8)
+                self.staller.start()
             self.w.start()
             self.started = True
             if self.spec.get("stall_seed") is not None and self.staller is None:
@@ -289,7 +299,14 @@ class Case:
         h, M = self.h, self.M
         self.start_once()
         self.delivered_fault = True
-        if scenario == "out_rejected_and_closed":
+        if scenario == "start_dials_many":
+            h.settle()
+            dials = [p for p in h.outbound_peers if not p.closed]
+            self.run.cov["start_dials_seen"] = self.run.cov.get("start_dials_seen", 0) + len(dials)
+            for p in dials[:2]:
+                p.close()
+            h.settle()
+        elif scenario == "out_rejected_and_closed":
             h.settle()
             outs = [p for p in h.outbound_peers if not p.closed and not p.node_sock.closed]
             if not outs:
